@@ -314,7 +314,7 @@ def finalize(tier, merged):
             ("boundary probes judged", c.get("probes", 0), 2000 if tier == "quick" else 12000),
             ("probes with an over-budget plan (must be refused up front)", c.get("probes_over_budget", 0), 600 if tier == "quick" else 3500),
             ("probes with a plan exactly at or under its budget (must run)", c.get("probes_within_budget", 0), 1000 if tier == "quick" else 6000),
-            ("recipes probed on both sides of their boundary", c.get("recipes_with_both_sides", 0), 400 if tier == "quick" else 2250),
+            ("recipes probed on both sides of their boundary", c.get("recipes_with_both_sides", 0), 400 if tier == "quick" else 1700),
             ("icontract evaluations on fuse/fuse_multiple", c.get("fuse_contract_evaluations", 0) + c.get("fuse_multiple_contract_evaluations", 0), 300 if tier == "quick" else 2000),
         ],
         "assumptions": ASSUMPTIONS,
